@@ -43,8 +43,8 @@ type Mail struct{ Addr string } // <a@b.c>
 type Raw struct{ S string }     // inline raw html
 type Soft struct{}
 type Hard struct{}
-type NearMiss struct{ S string } // block-start look-alike at the start of a paragraph continuation line indented >= 5 columns: plain text
-type BS struct{}                 // a literal backslash right before a hard break written with spaces
+type NearMiss struct{ S string }        // block-start look-alike at the start of a paragraph continuation line indented >= 5 columns: plain text
+type BS struct{}                        // a literal backslash right before a hard break written with spaces
 type NotLink struct{ Src, HTML string } // link look-alike that lies just outside the rules: plain text (and raw HTML) with a fixed rendering
 
 // URL: pieces with source spelling and resolved value
